@@ -93,7 +93,7 @@ pub mod fs {
     #[cfg(not(kani))]
     pub static mut NATIVE_ROOT: Option<PathBuf> = None;
 
-    fn disk() -> &'static mut Disk {
+    pub fn disk() -> &'static mut Disk {
         unsafe { &mut *std::ptr::addr_of_mut!(DISK) }
     }
 
@@ -317,7 +317,7 @@ pub mod fs {
     // model internals (used by the stubs)
     // ------------------------------------------------------------------------------
 
-    fn alloc_inode(d: &mut Disk) -> usize {
+    pub fn alloc_inode(d: &mut Disk) -> usize {
         let i = d.next_inode;
         if i >= NINODE {
             // out of model inodes: outside the bound of the instance
@@ -362,7 +362,7 @@ pub mod fs {
     }
 
     #[cfg(kani)]
-    fn lookup(p: &Path) -> usize {
+    pub fn lookup(p: &Path) -> usize {
         let bytes = p.as_os_str().as_encoded_bytes();
         let d = disk();
         let mut i = 0;
@@ -403,7 +403,7 @@ pub mod fs {
     }
 
     /// one mutating operation is about to happen: does the fault plan make it fail?
-    fn faulted(d: &mut Disk) -> bool {
+    pub fn faulted(d: &mut Disk) -> bool {
         let k = d.ops;
         d.ops += 1;
         k == d.fault_at
